@@ -12,7 +12,8 @@ QUICK_WALL = 100
 THOROUGH_WALL = 900
 CHUNK = 400
 RENAME = {"link-value": "interp-value"}
-OWN = {"link-value", "range-false-refuse", "range-not-refused", "link-exception", "push-raises", "link-units"}
+OWN = {"link-value", "range-false-refuse", "range-not-refused", "link-exception", "push-raises", "link-units", "link-mask",
+       "link-shape"}
 RULE = ("irregular strictly increasing publication series with arbitrary values; non-decreasing request sequences "
         "on, between (incl. exact midpoints and quarter points) and across several publications, repeated requests, "
         "requests before the first and beyond the newest publication; adapters Next/Previous/Linear/Step (step "
@@ -21,7 +22,8 @@ RULE = ("irregular strictly increasing publication series with arbitrary values;
         "between publications; distinct = digest of the event/result log")
 REAL = ["Output", "Input", "NextTime", "PreviousTime", "LinearTime", "StepTime", "Scale", "Callback"]
 STUB = ["event driver standing in for producer and consumer"]
-ASSUMPTIONS = ["request times are non-decreasing", "scalar payloads here; gridded payloads ride along in C15/C16",
+ASSUMPTIONS = ["request times are non-decreasing", "scalar and gridded payloads, the latter plain or masked (partial mask / "
+               "masked array without mask); a quarter of the runs under storage pressure (adapter buffers in spill files)",
                "float tolerance 1e-9 relative"]
 
 
@@ -42,9 +44,18 @@ def generate(tape, tier="quick"):
     if tape.chance(1, 4):
         from ..grids import gen_structured
         src["grid"] = gen_structured(tape, max_dim=2, max_len=3)
+        if tape.chance(1, 3):
+            src["masked"] = tape.choice(["partial", "nomask"])
+    mem = None
+    if tape.chance(1, 4):
+        # storage pressure: the adapters' buffers (and the source's history) partly or completely in spill files -
+        # discarding and re-reading entries must not change any result
+        mem = tape.choice([0, 0, 10, 60, 200])
+        if tape.chance(1, 2):
+            src["mem_limit"] = tape.choice([0, 10, 60])
     cu = tape.choice([None, None, "m", "km", "mm"]) if src["units"] in ("m", "km") else None
     return {"engine": "E3", "src": src,
-            "consumers": [{"chain": chain, "units": cu}], "events": events}
+            "consumers": [dict({"chain": chain, "units": cu}, **({"mem_limit": mem} if mem is not None else {}))], "events": events, "api": tape.draw(16)}
 
 
 def execute(sc):
